@@ -5,7 +5,7 @@ import random
 import tlc
 from common import Machinery, Verdict, seed
 from pool import run_chunks
-from hf import group_chunks
+from hf import group_chunks, spec_ainv
 
 TIERS = {"quick": dict(MaxPlace=2, Settings={1, 2, 3}, NPts=3, EmitMod=40, backends=[("pytorch", 16, 1.0), ("jax", 8, 0.12), ("tensorflow", 8, 0.06)]),
          "thorough": dict(MaxPlace=3, Settings={1, 2, 3}, NPts=3, EmitMod=120, backends=[("pytorch", 16, 1.0), ("jax", 12, 0.3), ("tensorflow", 12, 0.15)])}
@@ -22,27 +22,32 @@ def run(prop, tier):
         raise Machinery("MC_HFGrad invariants fail:\n" + res.tail[-3000:])
     lines = open(res.cases_path).read().splitlines()
     rnd = random.Random(sd)
-    total = nontriv = grads = 0
+    total = nontriv = grads = symb = 0
+    ainv = spec_ainv()
     per = {}
     for be, nproc, fr in t["backends"]:
         use = lines if fr >= 1.0 else [ln for ln in lines if rnd.random() < fr]
         chunks, _ = group_chunks(use, nproc)
         nb = 0
-        for out in run_chunks("grad_replay", "replay", chunks, backend=be, precision="64b", procs=nproc, kwargs={"seed": sd}):
+        for out in run_chunks("grad_replay", "replay", chunks, backend=be, precision="64b", procs=nproc, kwargs={"seed": sd, "ainv": ainv}):
             if "machinery" in out:
                 raise Machinery(out["machinery"])
-            total += out["n"]; nontriv += out["nontrivial"]; grads += out["grads"]; nb += out["n"]
+            symb += out.get("symbolic", 0); total += out["n"]; nontriv += out["nontrivial"]; grads += out["grads"]; nb += out["n"]
             for (p, key, detail, tags) in out["findings"]:
                 v.violation(f"[{be}] {key}", detail, tags)
         per[be] = nb
     c = json.loads(lines[0])
     v.sample({"spec": c["spec"], "setting": c["setting"], "theta": c["theta"], "dlambda": c["dlambda"]})
     v.coverage.update(states=res.distinct, transitions=res.generated, tlc_cached=res.cached, tlc_wall_s=round(res.wall, 1),
-                      traces_validated_against_impl=total, cases_per_backend=per, gradient_evaluations=grads, evaluations=total, distinct_nontrivial=nontriv,
+                      traces_validated_against_impl=total, cases_per_backend=per, gradient_evaluations=grads, symbolic_lane_points=symb, evaluations=total, distinct_nontrivial=nontriv,
                       rule=("MC_HFGrad emits, for a seeded 1/EmitMod of the specifications of the MC_HFModel space at differentiable points with positive "
                             "rates, the exact d lambda/d theta of every bin for every parameter component (rational + ln atoms); the leaf evaluator forms "
                             "d(2NLL)/d theta; shim(twice_nll, do_grad=True) is evaluated on pytorch/jax/tensorflow x do_stitch x fixed masks (none, first, "
-                            "last parameter): value equals the plain path, gradient equals the exact one (1e-8 relative); non-trivial = >= 2 parameters"),
+                            "last parameter): value equals the plain path, gradient equals the exact one (1e-8 relative); non-trivial = >= 2 parameters; "
+                            "symbolic lane: the same at a point with every normsys alpha non-integer (code 1 away from 0, code 4 inside and outside its core: "
+                            "atoms [lo, hi, alpha, derivative?] evaluated by the leaf evaluator with the specification's A_inverse)"),
                       exhaustive=False)
-    v.assumptions += ["normsys only at integer alpha != 0 (exponential regime); code-4 core and kinks of codes 0/1 at alpha = 0 excluded (DESIGN section 5)"]
+    if symb == 0:
+        raise Machinery("C13: the symbolic lane evaluated no point")
+    v.assumptions += ["kinks of codes 0/1 at alpha = 0 excluded (the derivative does not exist there); exact lane has normsys at integer alpha != 0, symbolic lane at non-integer alpha"]
     return v.finish()
